@@ -148,7 +148,7 @@ pub fn step(ctx: &Ctx, w: &World, ev: &mut Ev) {
                     let _ = fees;
                     if net_to_vault != exp {
                         let diff = exp - net_to_vault;
-                        let shape = if diff == f { "funding_not_charged" } else { "other" };
+                        let shape = if diff == f { "funding_not_charged" } else if pos.margin as i128 + realised < 0 { "negative_equity_before_funding_paid_as_magnitude" } else { "other" };
                         ev.violation("charge_exact", &format!("{},{},{}", kind.s(), sign(f), shape), json!({"net_trader_to_vault": net_to_vault.to_string(), "expected": exp.to_string(), "old_margin": pos.margin.to_string(), "realised_pnl": realised.to_string(), "funding_owed": f.to_string(), "new_margin": new_margin.to_string()}));
                     }
                 }
